@@ -20,7 +20,7 @@ LEVEL = {
     "C11": "Deductive proof (Verus): is_passkey_discoverable equals the capability table, get_info reports rk truthfully, make_credential stores the user handle exactly when discoverable and refuses rk on a non-discoverable-only store, get_assertion returns a user handle exactly when the credential stores one.",
     "C12": "Verus proof of the constructor / setters (AT / ED set exactly with their section, 65535 limit) and of the real decoder bodies from_slice / from_reader (37-byte guard, reserved bits, header bytes, big-endian counter, section presence iff flag, truncated / missing section rejected, credential id bytes) over trusted Cursor / ciborium models; complete Kani harness (all u8) for flag validity. Partial: the encoder to_vec is an iterator chain, checked only by a bounded Kani harness (thorough tier), and CBOR contents of key / extensions are not covered.",
     "C13": "Status-byte clauses only: complete loop-free Kani harnesses over all 256 bytes, and Verus proof of the client's status mapping. CBOR clauses are not decidable.",
-    "C15": "Deductive proof (Verus) of panic-freedom (index / slice / overflow / unwrap / unreachable) of the hand-written decoders of untrusted input: CTAPHID receiver for any packet length and sequence, U2F raw request decoder. Other decoders (CBOR, JSON, authenticator data, COSE) are outside both verifiers' reach and are listed as not covered.",
+    "C15": "Deductive proof (Verus) of panic-freedom (index / slice / overflow / unwrap / unreachable) of the hand-written decoders of untrusted input: CTAPHID receiver for any packet length and sequence, U2F raw request decoder, public-suffix lookup, the authenticator-data decoder's own slicing and allocation (over reader models), sequence-visitor pre-allocation. Other decoders (CBOR, JSON, COSE, nom fingerprint parser) are outside both verifiers' reach and are listed as not covered.",
     "C16": "Deductive proof (Verus): header layouts, size check, the receiver's step relation for every 64-byte packet, and the reassembly and interleaving theorems for all payloads 0..7609 and all schedules (lemmas over handle_packet's own postcondition). The sender loop is checked by bounded Kani harnesses in the thorough tier.",
     "C17": "Deductive proof (Verus) that every well-formed extended-length register / authenticate / version frame parses to that request, field by field. Response layouts are checked by bounded Kani harnesses (thorough tier); signatures are not decidable.",
     "C18": "Deductive proof (Verus) on the real impl Ctap2Api for Authenticator: each forwarding method terminates (no self-recursion) and returns the same result and final state as the inherent method (uninterpreted functions of state and request); method resolution is rustc's own.",
